@@ -1,7 +1,9 @@
 // Engine registry: one line per engine that exists.
 void registerEquivEngine();
+void registerImportEngine();
 
 extern "C" void cellsimRegisterEngines()
 {
     registerEquivEngine();
+    registerImportEngine();
 }
